@@ -152,8 +152,10 @@ type FnVC struct {
 
 // stableCell: a captured-variable cell whose content survives calls with unknown effects (see immut.go).
 type stableCell struct {
-	key string
-	ref string
+	key   string
+	ref   string
+	src   ssa.Value // the Alloc (declaring function) or FreeVar (closure) behind the cell
+	field int       // field index for an unescaped struct variable, -1 for a plain cell
 }
 
 type recApp struct {
@@ -291,7 +293,10 @@ func (v *FnVC) havocKey(st *State, key string) {
 	st.heap[key] = v.freshConst("Hh_"+key, so)
 }
 
-func (v *FnVC) havocAll(st *State) {
+func (v *FnVC) havocAll(st *State) { v.havocAllExcept(st, nil) }
+
+// havocAllExcept: skip[i] excludes stable cell i from being preserved (loop headers: cells the loop body writes).
+func (v *FnVC) havocAllExcept(st *State, skip map[int]bool) {
 	v.nextEpoch++
 	old := st.heap
 	oldEpoch := st.epoch
@@ -321,7 +326,14 @@ func (v *FnVC) havocAll(st *State) {
 	v.havocs = append(v.havocs, havocRec{newEpoch: st.epoch, pre: &State{heap: old, epoch: oldEpoch, alloc: oldAlloc}, preAlloc: oldAlloc})
 	byKey := map[string][]string{}
 	var cellKeys []string
-	for _, sc := range v.stableCells {
+	for i, sc := range v.stableCells {
+		if skip[i] {
+			if _, seen := byKey[sc.key]; !seen {
+				cellKeys = append(cellKeys, sc.key)
+				byKey[sc.key] = nil
+			}
+			continue
+		}
 		if _, seen := byKey[sc.key]; !seen {
 			cellKeys = append(cellKeys, sc.key)
 		}
@@ -1289,7 +1301,7 @@ func (v *FnVC) Generate() (err error) {
 			if _, isS := structOf(el); !isS {
 				for k, f2 := range fn.FreeVars {
 					if f2 == fvr && stableFreeVar(fn, k) {
-						v.stableCells = append(v.stableCells, stableCell{key: v.cellKey(el), ref: t.S})
+						v.stableCells = append(v.stableCells, stableCell{key: v.cellKey(el), ref: t.S, src: fvr, field: -1})
 						v.note("captured variable %s is not written by any closure: kept across calls with unknown effects", fvr.Name())
 					}
 				}
@@ -1454,7 +1466,36 @@ func (v *FnVC) loopHeader(b *ssa.BasicBlock, li *LoopInfo, entryPreds []*ssa.Bas
 	// 2. havoc
 	keys, all := v.loopModKeys(li)
 	if all {
-		v.havocAll(v.cur)
+		// stable cells the loop body itself stores to do not keep their pre-loop value at the header
+		skip := map[int]bool{}
+		for idx, sc := range v.stableCells {
+			for b := range li.Blocks {
+				for _, ins := range b.Instrs {
+					stI, ok := ins.(*ssa.Store)
+					if !ok {
+						continue
+					}
+					addr := stI.Addr
+					fld := -1
+					for {
+						if fa, ok := addr.(*ssa.FieldAddr); ok {
+							fld = fa.Field
+							addr = fa.X
+							continue
+						}
+						if ia, ok := addr.(*ssa.IndexAddr); ok {
+							addr = ia.X
+							continue
+						}
+						break
+					}
+					if addr == sc.src && (sc.field < 0 || fld == sc.field || fld < 0) {
+						skip[idx] = true
+					}
+				}
+			}
+		}
+		v.havocAllExcept(v.cur, skip)
 		v.note("loop %d of %s: all heap havocked at header (unknown callee effects in body)", li.Ordinal, v.fnName())
 	} else {
 		var ks []string
